@@ -160,13 +160,17 @@ def rule_due(R):
     R.ob("due/enqueue", ok, "maybe_queue_pingreq queues a PINGREQ exactly on the `due` edge", where=mq_b.span)
     # and it is called before every outbound step
     n = 0
-    for name in ("service_outbound_once", "flush_outbound"):
-        b, code = cm[name]
+    nsf = roles.method(f, OUTBOUND, "next_step")
+    for name, (b, code) in sorted(cm.items()):
+        ns = outq.calls_to(f, code, nsf)
+        # functions that pick a step *and perform it* (drive_packet merely peeks whether work is left)
+        if not ns or "perform_outbound_step" not in cm or not outq.calls_to(f, code, cm["perform_outbound_step"][0]):
+            continue
         cs = outq.calls_to(f, code, mq_b)
-        ns = [c for c in code.calls.values() if c.bb in code.reachable and c.is_("next_step")]
-        okb = bool(cs) and bool(ns) and all(code.must_pass([0], [x.bb], via_blocks=[c.bb for c in cs])[0] for x in ns)
+        okb = bool(cs) and all(code.must_pass([0], [x.bb], via_blocks=[c.bb for c in cs])[0] for x in ns)
         n += 1
         R.ob("due/checked-before-step/%s" % name, okb, "%s checks for a due PINGREQ before picking the next outbound step" % name, where=b.span)
+    R.floor("due/checked-before-step", n, 2, "functions that pick the next outbound step")
 
 
 def rule_refresh(R):
@@ -213,10 +217,13 @@ def rule_check(R):
     ok = sw is not None
     if ok:
         cl = [c for c in f.children(code) if c.kind == "closure"]
-        okc = any(is_call(peel(c.local_term(0)), "PartialOrd::ge", "ge") and peel(peel(c.local_term(0))[3][1]) == ("param", "deadline") for c in cl)
-        # absent deadline means "not expired"
+        okc = any(is_call(peel(c.local_term(0)), "PartialOrd::ge", "ge") and c.arg_count >= 2 and
+                  peel(peel(c.local_term(0))[3][1]) == ("param", c.param_name(2)) for c in cl)
+        # absent deadline means "not expired": `.map(f).unwrap_or(false)`, `.is_some_and(f)`, `.map_or(false, f)`
         s = peel(sw["subject"])
-        okd = is_call(s, "unwrap_or") and s[3][1][0] == "const" and s[3][1][2] == 0
+        okd = (is_call(s, "unwrap_or") and s[3][1][0] == "const" and s[3][1][2] == 0) or \
+            is_call(s, "Option::<T>::is_some_and", "is_some_and") or \
+            (is_call(s, "Option::<T>::map_or", "map_or") and s[3][1][0] == "const" and s[3][1][2] == 0)
         lat = roles.latch_fns(f)
         steps = [c for c in code.calls.values() if c.bb in code.reachable and (f.call_does_io(c) or roles.call_writes_state(f, c))
                  and not any(t in lat for t in f.call_targets(c))]
@@ -232,6 +239,32 @@ def rule_check(R):
     R.ob("check/expiry-first", ok,
          "service() tests `now >= ping_timeout` (absent = not expired) before any outbound work; on expiry it latches the "
          "handle and returns Disconnected", where=b.span)
+
+
+def _deadline_value(v, have):
+    """what next_deadline returns on a path (term v) given which of the two deadlines are present"""
+    if v[0] == "agg" and v[3] == "None":
+        return "none"
+    if v[0] == "agg" and v[3] == "Some" and v[5]:
+        inner = peel(v[5][0])
+        if is_call(inner, "Ord::min", "min"):
+            return "min"
+        n = chain(inner)[1]
+        return n[0] if n else "?"
+    if is_call(v, "Option::<T>::or") and len(v[3]) == 2:
+        # a.or(b): a if present, else b
+        fa = [n for n in chain(peel(v[3][0]))[1] if n in have]
+        fb = [n for n in chain(peel(v[3][1]))[1] if n in have]
+        if len(fa) == 1 and len(fb) == 1:
+            if have[fa[0]] == "Some":
+                return fa[0]
+            return fb[0] if have[fb[0]] == "Some" else "none"
+        return "?"
+    n = chain(v)[1]
+    if len(n) == 1 and n[0] in have:
+        # the field itself is returned: present -> that deadline, absent -> none
+        return n[0] if have[n[0]] == "Some" else "none"
+    return "?"
 
 
 def rule_race(R):
@@ -286,15 +319,18 @@ def rule_race(R):
         v = ret_value_on_path(nd, lf["path"])
         if v is None:
             continue
-        if v[0] == "agg" and v[3] == "None":
-            d = "none"
-        else:
-            inner = peel(v[5][0])
-            if is_call(inner, "Ord::min", "min"):
-                d = "min"
-            else:
-                d = chain(inner)[1][0] if chain(inner)[1] else "?"
-        table[(np_, pt_)] = d
+        def _allowed(c):
+            if isinstance(c, str):
+                return [c]
+            if isinstance(c, tuple) and c and c[0] == "not":
+                return [x for x in ("Some", "None") if x not in c[1]]
+            return ["Some", "None"]
+        for a in _allowed(np_):
+            for b_ in _allowed(pt_):
+                d = _deadline_value(peel(v), {"next_ping": a, "ping_timeout": b_})
+                if (a, b_) in table and table[(a, b_)] != d:
+                    d = "conflict"
+                table[(a, b_)] = d
     want = {("Some", "Some"): "min", ("Some", "None"): "next_ping", ("None", "Some"): "ping_timeout", ("None", "None"): "none"}
     R.ob("race/next-deadline-table", table == want,
          "next_deadline is the earlier of the two deadlines, the present one if only one exists, none otherwise (extracted %s)" % table,
@@ -327,7 +363,7 @@ def rule_const(R):
     R.ob("const/server-keepalive", ok,
          "the effective keep-alive is the configured one, replaced by the CONNACK's Server Keep Alive when present", where=hb.span)
     a = roles.connack_property_arms(f).get("ServerKeepAlive")
-    okh = a is not None and a["unconditional"] and any(nm == "keepalive_interval" and is_call(peel(v), "Duration::from_secs") for nm, v in a["stores"])
+    okh = a is not None and a["unconditional"] and any(is_call(peel(v), "Duration::from_secs") for v in roles.arm_values_for(a, RUNTIME, "keepalive_interval"))
     R.ob("const/server-keepalive-honoured", okh,
          "a Server Keep Alive in the CONNACK always replaces the configured keep-alive (converted from seconds)",
          where=a["span"] if a else hb.span)
